@@ -213,8 +213,9 @@ def family(run):
         for a, b in itertools.combinations_with_replacement(acc, 2):
             yield obj, (a, b)
     if run.thorough:
-        for obj in ("sig", "out", "inp"):
-            acc = [a for a in accesses_for(obj) if a[1] in ("w", "w0", "r", "push")]
+        for obj in ("sig", "out", "inp", "var"):
+            kinds = ("w", "w0", "w1", "wdyn", "r", "push") if obj in ("sig", "out") else ("w", "w0", "r", "push")
+            acc = [a for a in accesses_for(obj) if a[1] in kinds]
             for t in itertools.combinations_with_replacement(acc, 3):
                 yield obj, t
 
